@@ -14,6 +14,8 @@ EXTRACTED syntactically from /repo (a construct the extractor does not understan
     of the effectful operations) each with the chain of enclosing `if`/`match output` conditions; the condition TEXT is
     mapped to model atoms by the fixed dictionary GUARDS below (unknown text around an event -> raise);
   * whether the preview format is forced to `None` under `--output json` (text test per handler / dispatch arm);
+  * every `Command::new` of the non-test core + CLI sources with the way the child is run (output / status / spawn, stdout
+    redirected or inherited); every call of the error-document emitter that is not directly followed by the exit;
   * every stdout emission site of renamify-core/src (non-test): file, enclosing fn, guard texts; sites under an
     `env::var("RENAMIFY_DEBUG_…")` guard are counted separately.
 ASSUMED (stated in Model/Output.lean, validated by the CLI grid of checks/c19.py):
@@ -704,10 +706,81 @@ def parse_main(repo):
         clap_doc = bool(emitter) and EMIT + "(" in re.sub(r"\s+", "", src[cm.end():cc]) and "e.exit()" in re.sub(r"\s+", "", src[cm.end():cc])
     elif not re.compile(r"Cli::parse\(\)").search(b, bo, mo):
         raise ParseError("main.rs: neither Cli::parse() nor Cli::try_parse().unwrap_or_else(…) found")
-    return {"dispatch": dispatch, "ok_code": plain[0], "ok_interrupted": ok_interrupted, "ok_arm_stdout": ok_out,
+    # every call of the emitter anywhere in main.rs must be directly followed, under the same conditions, by the exit of the
+    # process (`process::exit`, or clap's `e.exit()` inside the try_parse closure): a call whose function then RETURNS lets a
+    # caller report the same failure again — two documents
+    unpaired = []
+    if emitter:
+        clap_range = (cm.end(), cc) if cm else (0, 0)
+        for fm in re.finditer(r"\bfn\s+(\w+)\s*(?:<[^>]*>)?\s*\(", b):
+            fname = fm.group(1)
+            if fname == EMIT:
+                continue
+            pc = _rs.match_close(b, fm.end() - 1)
+            fo = b.find("{", pc)
+            semi = b.find(";", pc)
+            if fo < 0 or (0 <= semi < fo):
+                continue
+            fc = _rs.match_close(b, fo)
+            evs = [e for e in _rs.events(src, b, fo + 1, fc, calls=(EMIT,)) if e["kind"] in ("call", "exit", "out", "ret", "fail")]
+            for i, e in enumerate(evs):
+                if e["kind"] != "call" or e["name"] != EMIT:
+                    continue
+                if clap_range[0] <= e["pos"] < clap_range[1]:
+                    continue                      # followed by clap's own e.exit() (checked above: clap_doc)
+                nxt = [x for x in evs[i + 1:] if x["guard"][:len(e["guard"])] == e["guard"]]
+                # the `?`/fail events of the arguments of the call itself sit before it; the next event must be the exit
+                if not nxt or nxt[0]["kind"] != "exit" or nxt[0]["guard"] != e["guard"]:
+                    unpaired.append((fname, (e["guard"][-1][0] if e["guard"] else "")))
+    return {"unpaired_emit": unpaired,
+            "dispatch": dispatch, "ok_code": plain[0], "ok_interrupted": ok_interrupted, "ok_arm_stdout": ok_out,
             "rules": rules, "default": int(dm.group(1)),
             "err_arm_stdout": len(err_out), "err_arm_stderr": len(err_err), "pre_exits": pre,
             "helper_stdout": helper_out, "emitter": emitter, "err_arm_doc": err_arm_doc, "clap_doc": clap_doc}
+
+
+def child_process_sites(repo):
+    """every `Command::new(…)` of the non-test core + CLI sources: (file, fn, program, how it is run, stdout redirected)
+    how = output (captured) | status | spawn (both inherit our stdout unless `.stdout(…)` is set) | unknown"""
+    res = []
+    for base in (CORE, CLI):
+        root = os.path.join(repo, base)
+        test_mods = set()
+        for top in ("main.rs", "lib.rs"):
+            p = os.path.join(root, top)
+            if os.path.exists(p):
+                test_mods |= set(re.findall(r"#\[cfg\(test\)\]\s*(?:pub\s+)?mod\s+(\w+)\s*;", open(p).read()))
+        for dp, dn, fns in os.walk(root):
+            dn.sort()
+            for fnm in sorted(fns):
+                if not fnm.endswith(".rs") or fnm[:-3] in test_mods:
+                    continue
+                raw = open(os.path.join(dp, fnm)).read()
+                if "Command::new" not in raw:
+                    continue
+                src, b = _rs.decomment(raw), _rs.strip_cfg_test(_rs.blank(raw))
+                rel = os.path.relpath(os.path.join(dp, fnm), os.path.join(repo))
+                fn_starts = [(m.start(), m.group(1)) for m in re.finditer(r"\bfn\s+(\w+)", b)]
+                for m in re.finditer(r"\bCommand::new\s*\(", b):
+                    cl = _rs.match_close(b, m.end() - 1)
+                    prog = norm(src[m.end():cl])[:30]
+                    depth, q = 0, cl + 1
+                    while q < len(b):
+                        ch = b[q]
+                        if ch in "([{":
+                            depth += 1
+                        elif ch in ")]}":
+                            if depth == 0:
+                                break
+                            depth -= 1
+                        elif ch == ";" and depth == 0:
+                            break
+                        q += 1
+                    chain = re.sub(r"\s+", "", b[cl:q])
+                    how = "output" if ".output()" in chain else "status" if ".status()" in chain else "spawn" if ".spawn()" in chain else "unknown"
+                    owner = [n for p0, n in fn_starts if p0 < m.start()]
+                    res.append((rel, owner[-1] if owner else "?", prog, how, ".stdout(" in chain))
+    return res
 
 
 def core_stdout_sites(repo):
@@ -845,7 +918,8 @@ def extract(repo=None):
     for t in ("Plan",):
         types.shape_of(t)
     sites, debug = core_stdout_sites(repo)
-    return {"types": types.cache, "format_json": fj, "main": main, "handlers": handlers, "rows": rows,
+    children = child_process_sites(repo)
+    return {"children": children,"types": types.cache, "format_json": fj, "main": main, "handlers": handlers, "rows": rows,
             "core_sites": sites, "core_debug_sites": debug, "always_some": types.some_cache, "some_sites": types.some_sites}
 
 
@@ -903,6 +977,9 @@ def run():
           f"def errArmJsonDoc : Bool := {'true' if m['err_arm_doc'] else 'false'}",
           "/-- clap's rejection of the argv goes through `Cli::try_parse().unwrap_or_else(|e| { … emit_json_error(…) … e.exit() })` -/",
           f"def clapErrorJsonDoc : Bool := {'true' if m['clap_doc'] else 'false'}",
+          "/-- calls of the error-document emitter in main.rs that are NOT directly followed by the exit of the process under the",
+          "    same conditions: (fn, innermost condition) -/",
+          "def unpairedErrorDocCalls : List (Name × Name) := [" + ", ".join(f"({nm(a)}, {nm(g[:60])})" for a, g in m["unpaired_emit"]) + "]",
           "",
           "/-- `process::exit` sites reached before the dispatch: (fn, code text, innermost guard text, the exit is preceded by",
           "    `emit_json_error(json_output, …)` under the same conditions) -/",
@@ -918,5 +995,11 @@ def run():
           "def coreStdoutSites : List (Name × Name × List Name × Nat) := ["]
     L += [f"  ({nm(f)}, {nm(fn)}, [" + ", ".join(nm(g[:70]) for g in guards) + f"], {calls})" + ("," if i + 1 < len(x["core_sites"]) else "")
           for i, (f, fn, guards, macro, calls) in enumerate(x["core_sites"])]
-    L += ["]", f"def coreDebugGatedSites : Nat := {x['core_debug_sites']}", "", "end Gen", ""]
+    L += ["]", f"def coreDebugGatedSites : Nat := {x['core_debug_sites']}", "",
+          "/-- every `Command::new(…)` of the non-test core + CLI sources: (file, fn, program, how it is run, `.stdout(…)` set);",
+          "    `status` / `spawn` without a redirect let the child write to OUR stdout -/",
+          "def childProcessSites : List (Name × Name × Name × Name × Bool) := ["]
+    L += [f"  ({nm(a)}, {nm(fn_)}, {nm(pr)}, {nm(how)}, {'true' if red else 'false'})" + ("," if i + 1 < len(x["children"]) else "")
+          for i, (a, fn_, pr, how, red) in enumerate(x["children"])]
+    L += ["]", "", "end Gen", ""]
     return [("Gen/OutputShapes.lean", common.write_if_changed(os.path.join(common.LEAN, "RModel/Gen/OutputShapes.lean"), "\n".join(L)))]
